@@ -120,3 +120,36 @@ def slice_insertions_st(draw, scenario, where="transforms", max_ins=3, **kw):
             tx.setdefault(name, {})["insertions"] = ins
         inforce[key] = ins
     return tx, inforce
+
+
+# --------------------------------------------------------------------------- order / hide
+def element_refs(var, part=None):
+    """Canonical element references (ids) of the valid elements of a dimension, as a
+    transform would spell them: category ids, or sub-variable aliases for array items."""
+    if var["type"] == "cat" or (var["type"] == "ca" and part == "cats"):
+        if var.get("flavour") == "datetime":
+            return [c["evalue"] for c in var["cats"] if not c["missing"]]
+        cats = var["cats"]
+        if var.get("use_order_key"):
+            by = {c["id"]: c for c in cats}
+            cats = [by[i] for i in var["order"]]
+        return [c["id"] for c in cats if not c["missing"]]
+    return [it["alias"] for it in var["items"]]
+
+
+@st.composite
+def explicit_ids_st(draw, refs, stale=(STALE,)):
+    pool = list(refs) * 2 + list(stale)
+    return draw(st.lists(st.sampled_from(pool), min_size=0, max_size=len(refs) + 2))
+
+
+@st.composite
+def hide_prune_st(draw, refs, p_hide=3, p_prune=3):
+    """(elements transform dict or None, prune flag)"""
+    elements = {}
+    if refs and draw(st.integers(0, p_hide)) == 0:
+        hid = draw(st.lists(st.sampled_from(list(refs)), min_size=1, max_size=2, unique=True))
+        for h in hid:
+            elements[str(h)] = {"hide": True}
+    prune = draw(st.integers(0, p_prune)) == 0
+    return elements, prune
